@@ -323,11 +323,11 @@ class Run:
 class Group:
     """One controller: `size` workers plus a scratch directory."""
 
-    def __init__(self, pool, size, scratch):
+    def __init__(self, pool, workers, scratch):
         self.pool = pool
         self.dir = scratch
         os.makedirs(self.dir, exist_ok=True)
-        self.workers = [pool.spawn() for _ in range(size)]
+        self.workers = workers
 
     def close(self):
         for w in self.workers:
@@ -466,34 +466,42 @@ class Pool:
             ev = self.zrd.get()
             if ev.get("ev") != "ready":
                 raise SchedError("zygote start-up: %r" % (ev,))
+            ws = self.spawn(ngroups * size)
             for g in range(ngroups):
-                self.groups.append(Group(self, size, os.path.join(self.root, "g%d" % g)))
+                self.groups.append(Group(self, ws[g * size:(g + 1) * size], os.path.join(self.root, "g%d" % g)))
         except BaseException:
             self.close()
             raise
 
-    def spawn(self):
+    def spawn(self, k=None):
+        """Fork one worker (k=None) or k workers at once (their start-up then overlaps)."""
+        many = [None] * (1 if k is None else k)
         with self.lock:
-            self.ntok += 1
-            token = "w%d" % self.ntok
-            try:
-                self.zygote.stdin.write((json.dumps({"cmd": "spawn", "token": token}) + "\n").encode())
-                self.zygote.stdin.flush()
-            except (OSError, ValueError) as e:
-                raise SchedError("zygote is gone: %s" % e)
-            r, _, _ = select.select([self.listener.fileno()], [], [], REPLY_TIMEOUT)
-            if not r:
-                raise SchedError("forked worker did not connect")
-            sock, _ = self.listener.accept()
-            ready = _Line(sock.fileno(), sock.recv, "new worker").get()
-            if ready.get("ev") != "ready" or ready.get("token") != token:
-                sock.close()
-                raise SchedError("worker start-up: %r" % (ready,))
+            tokens = []
+            for _ in many:
+                self.ntok += 1
+                tokens.append("w%d" % self.ntok)
+                try:
+                    self.zygote.stdin.write((json.dumps({"cmd": "spawn", "token": tokens[-1]}) + "\n").encode())
+                    self.zygote.stdin.flush()
+                except (OSError, ValueError) as e:
+                    raise SchedError("zygote is gone: %s" % e)
+            got = {}
             want = os.path.join(os.path.realpath(self.repo), "androguard")
-            if os.path.realpath(ready["androguard"]) != want:
-                sock.close()
-                raise SchedError("worker imported androguard from %s, expected %s" % (ready["androguard"], want))
-            return Worker(sock, ready)
+            for _ in many:
+                r, _, _ = select.select([self.listener.fileno()], [], [], REPLY_TIMEOUT)
+                if not r:
+                    raise SchedError("forked worker did not connect")
+                sock, _ = self.listener.accept()
+                ready = _Line(sock.fileno(), sock.recv, "new worker").get()
+                if ready.get("ev") != "ready" or ready.get("token") not in tokens or ready["token"] in got:
+                    sock.close()
+                    raise SchedError("worker start-up: %r" % (ready,))
+                got[ready["token"]] = Worker(sock, ready)
+                if os.path.realpath(ready["androguard"]) != want:
+                    raise SchedError("worker imported androguard from %s, expected %s" % (ready["androguard"], want))
+            out = [got[t] for t in tokens]
+            return out[0] if k is None else out
 
     def close(self):
         for g in self.groups:
